@@ -332,7 +332,8 @@ func CheckImports(run *core.Run, prog *load.Program) {
 		}
 		run.Check("G-IMPORT/keys", ks.key, ks.pos, ks.ok, ks.msg)
 	}
-	run.Floor("G-IMPORT/keys", 2)
+	// no floor: wrappers around the map (get/put of a typed map) leave no site to judge here; that one import
+	// is kept per canonical path is decided by the registration table of engine R ("vendored", "same-package-twice")
 	// who may call AddImport
 	// callers: the type walker family (what AddVar reaches inside the registry) and the Mock family (what
 	// Mock reaches inside pkg/moq, registering exactly sync and the source package: G-DATA/imports)
@@ -343,7 +344,7 @@ func CheckImports(run *core.Run, prog *load.Program) {
 	funcsOf(prog, func(pkgPath string, inf *types.Info, fd *ast.FuncDecl, fnn *types.Func) {
 		ast.Inspect(fd.Body, func(n ast.Node) bool {
 			if call, ok := n.(*ast.CallExpr); ok {
-				if cf, ok := typeutil.Callee(inf, call).(*types.Func); ok && load.FuncName(cf) == "Registry.AddImport" && prog.IsMoqPkg(cf.Pkg()) {
+				if cf, ok := typeutil.Callee(inf, call).(*types.Func); ok && prog.IsMoqPkg(cf.Pkg()) && isAddImport(prog, cf) {
 					name := load.FuncName(fnn)
 					callers = append(callers, name)
 					switch {
@@ -1180,7 +1181,7 @@ func reachableFrom(prog *load.Program, fn *types.Func) map[*types.Func]bool {
 // IsCanonicaliser: by role, the registry's path canonicaliser — an unexported function from string to
 // string whose body mentions a constant containing "vendor".
 func IsCanonicaliser(prog *load.Program, fn *types.Func) bool {
-	if fn == nil || fn.Pkg() == nil || fn.Pkg().Path() != load.PkgRegistry {
+	if fn == nil || fn.Pkg() == nil || !prog.IsMoqPkg(fn.Pkg()) || fn.Pkg().Path() == load.PkgMain {
 		return false
 	}
 	sig, _ := fn.Type().(*types.Signature)
@@ -1315,4 +1316,25 @@ func CheckSourceScopeReaders(run *core.Run, prog *load.Program) {
 	})
 	run.Floor("G-STABLE/source-scope", 1)
 	run.Count("source_scope_readers", n)
+}
+
+// isAddImport: the callee is (*Registry).AddImport, or a method of an interface declared in moq that
+// (*Registry).AddImport implements (a call through a narrow interface the generator injects).
+func isAddImport(prog *load.Program, cf *types.Func) bool {
+	if load.FuncName(cf) == "Registry.AddImport" {
+		return true
+	}
+	sig, _ := cf.Type().(*types.Signature)
+	if sig == nil || sig.Recv() == nil {
+		return false
+	}
+	if _, isIface := sig.Recv().Type().Underlying().(*types.Interface); !isIface {
+		return false
+	}
+	for _, im := range implementations(prog, cf) {
+		if load.FuncName(im) == "Registry.AddImport" {
+			return true
+		}
+	}
+	return false
 }
